@@ -184,6 +184,36 @@ func runC15(c0 *h.Ctx) {
 					}
 				}
 			}
+			// public keys that are not curve points / of other lengths, and the context-free wrappers
+			for _, badPk := range [][]byte{nil, {}, pub[:31], cat(pub, []byte{0}), cat([]byte{2}, make([]byte, 31)), bytesFF(32), cat([]byte{0xec}, bytesFF(30), []byte{0x7f})} {
+				var e1, e2 error
+				var o1, o2 []byte
+				pan, pmsg := h.Protect(func() {
+					o1, e1 = ed25519.BlindPublicKeyWithContext(badPk, rnd(c, 32), []byte("ctx"))
+					o2, e2 = ed25519.UnblindPublicKeyWithContext(badPk, rnd(c, 32), []byte("ctx"))
+				})
+				c.Count("blind:invalid-public-key", 1, h.Hex(badPk))
+				_, decOK := ref.EdDecode(badPk)
+				if pan {
+					c.Violation("blinding a byte string that is not a public key panics", map[string]any{"public_key": h.Hex(badPk), "panic": pmsg})
+				} else if !decOK && (e1 == nil || e2 == nil || o1 != nil || o2 != nil) {
+					c.Violation("blinding / unblinding a byte string that is not a point encoding reports an error and returns no key", map[string]any{"public_key": h.Hex(badPk)})
+				}
+			}
+			{
+				bl := rnd(c, 32)
+				w1, e1 := ed25519.BlindPublicKey(pub, bl)
+				w2, e2 := ed25519.BlindPublicKeyWithContext(pub, bl, []byte{})
+				u1, e3 := ed25519.UnblindPublicKey(w1, bl)
+				msgW := rnd(c, 17)
+				sW := ed25519.BlindKeySign(priv, msgW, bl)
+				sum := sha512.Sum512(cat(bl, []byte{0}))
+				fW := new(big.Int).Mod(ref.LE(sum[:32]), ref.EdL())
+				c.Count("blind:context-free-wrappers", 1, h.Hex(bl))
+				if e1 != nil || e2 != nil || e3 != nil || !bytes.Equal(w1, w2) || !bytes.Equal(u1, pub) || !bytes.Equal(w1, A.Mul(fW).Encode()) || !stded.Verify(stded.PublicKey(w1), msgW, sW) {
+					c.Violation("the context-free wrappers are the empty-context operations (factor SHA-512(blind || 0x00)[:32] mod L)", map[string]any{"seed": h.Hex(seed), "blind": h.Hex(bl)})
+				}
+			}
 			// two blinds cut from ONE buffer (the second right behind the first)
 			buf := rnd(c, 64)
 			bA, bB := buf[:32], buf[32:]
